@@ -38,6 +38,10 @@ def rand_out_port(rng):
         attrs['valid_type'] = vt
     if rng.random() < 0.2 and vt in (None, 'int', 'intstr'):
         attrs['validator'] = 'v_not1'
+    if rng.random() < 0.12:
+        # a port for list values with a validator on their length (the emitted list may be filled further afterwards)
+        attrs = {k: v for k, v in attrs.items() if k == 'required'}
+        attrs['validator'] = 'v_short'
     return ['port', attrs]
 
 
@@ -94,8 +98,18 @@ def rand_emissions(rng, spec):
             val = {'j': c11._good_value(rng, vt), 'i': c11._bad_value(rng, vt)}
         else:
             val = rng.choice([{}, None, {'d': {'e': c11._good_value(rng, vt)}}])
+        if d_short(declared, path):
+            val = rng.choice([['@L'], ['@L', 2], []])
+            ems.append([path, val])
+            if rng.random() < 0.6:
+                ems.append(['@mutate', path])  # the emitted list gets one more element after it was accepted
+            continue
         ems.append([path, val])
     return ems
+
+
+def d_short(declared, path):
+    return any(p == path and d[0] == 'port' and d[1].get('validator') == 'v_short' for p, d in declared)
 
 
 def gen_cases(tier, seed):
@@ -134,6 +148,14 @@ class Emitter(plumpy.Process):
     def run(self):
         log = self.emit_log = []
         for path, value in self.emissions:
+            if path == '@mutate':
+                target = self.outputs
+                for part in value.split('.'):
+                    target = target.get(part) if isinstance(target, dict) else None
+                if isinstance(target, list):
+                    target.append('later')
+                log.append(['mutated', value, isinstance(target, list)])
+                continue
             before = copy.deepcopy(c11.plain(self.outputs))
             try:
                 self.out(path, value)
@@ -276,6 +298,14 @@ def run_case(case):
     exp_emitted = []
     shape = c11._shape(spec)
     for i, (path, value) in enumerate(emissions):
+        if path == '@mutate':
+            target = exp_outputs
+            for part in value.split('.'):
+                target = target.get(part) if isinstance(target, dict) else None
+            if isinstance(target, list):
+                target.append('later')
+                obs['mutated_after_emission'] = obs.get('mutated_after_emission', 0) + 1
+            continue
         verdict = model.emit(path, value)
         if verdict[0] == 'accept' and not _can_store(exp_outputs, path):
             # the spec accepts it but an earlier emission stored a plain value where this path needs a namespace: cannot be stored
